@@ -83,6 +83,15 @@ where
         Ok(())
     }
 
+    /// true if a frame with this destination is addressed to this server: a configured unit id, or
+    /// the broadcast address (which is never answered, see `reply_with_error_generic`)
+    fn serves(&mut self, destination: FrameDestination) -> bool {
+        match destination {
+            FrameDestination::UnitId(unit_id) => self.handlers.get(unit_id).is_some(),
+            FrameDestination::Broadcast => true,
+        }
+    }
+
     pub(crate) async fn run(&mut self, io: &mut PhysLayer) -> RequestError {
         loop {
             if let Err(err) = self.run_one(io).await {
@@ -160,6 +169,9 @@ where
                 Some(x) => x,
                 None => {
                     tracing::warn!("received unknown function code: {}", value);
+                    if !self.serves(frame.header.destination) {
+                        return Ok(());
+                    }
                     return self
                         .reply_with_error_generic(
                             io,
@@ -176,6 +188,9 @@ where
             Ok(x) => x,
             Err(err) => {
                 tracing::warn!("error parsing {:?} request: {}", function, err);
+                if !self.serves(frame.header.destination) {
+                    return Ok(());
+                }
                 return self
                     .reply_with_error(io, frame.header, function, ExceptionCode::IllegalDataValue)
                     .await;
